@@ -204,7 +204,17 @@ func Upgrade8To10(old, new string, logger *log.Logger) (retErr error) {
 		if err != nil {
 			return fmt.Errorf("reading upgrade plan: %w", err)
 		}
-		if err := p.Execute(plan.NewExecutor()); err != nil {
+		if fsutil.DirExists(new) {
+			// The plan got as far as moving the upgraded directory into place. Replaying it
+			// from the start would re-create the temporary directory and then fail to rename
+			// it over the upgraded one, so just finish: only clean-up can be outstanding.
+			if err := os.RemoveAll(tmpName(new)); err != nil {
+				return fmt.Errorf("removing temporary upgrade directory: %w", err)
+			}
+			if err := os.RemoveAll(old); err != nil {
+				return fmt.Errorf("removing old snapshot directory %s: %w", old, err)
+			}
+		} else if err := p.Execute(plan.NewExecutor()); err != nil {
 			return fmt.Errorf("executing resumed upgrade plan: %w", err)
 		}
 		os.Remove(planPath)
